@@ -25,6 +25,7 @@ RULE = (
     "  The grid also holds 2**53+1 (where int and float arithmetic differ); 30 % of the numeric literals are floats "
     "or bools equal to the integer drawn; for half of the cases a look-alike (literals replaced by equal values of "
     "another type, hence an expression that compares and hashes equal) is put through the same library calls first. "
+    "  Each predicate with >= 2 columns is also offered for commutation past a calculation that defines one of its columns (a refused move), after which its required-column set must be unchanged. "
 )
 ASSUMPTIONS = [
     "rows range over the grid ([-2,2] + {2**53+1})^k: equivalence of predicates is decided on that grid only",
